@@ -19,7 +19,7 @@
    arguments via AssignFollows, repeated names), list / dict (comprehensions), slice, comprehension,
    lambda, f-string splitting (findBrace).  The lexer is modelled completely. *)
 From Coq Require Import String Sorted.
-From PlzV Require Import Base.Harness Model.C19 Proof.C19 Proof.C19_Parser.
+From PlzV Require Import Base.Harness Model.C19 Proof.C19 Proof.C19_Parser Proof.C19_Entry.
 
 (* The property at full strength: with SOME finite stack, every byte string either parses or is
    rejected with a positioned error - never an internal error, never a crash. *)
@@ -71,23 +71,65 @@ Theorem C19_parse_safe :
 Proof. exact parse_safe. Qed.
 Print Assumptions C19_parse_safe.
 
+(* The PUBLIC entry points.  Model.C19.parse_data isld depth bs is Parser.ParseData (ParseReader / ParseFileOnly /
+   ParseFile reach the parser through the same Parser.parseAndHandleErrors) on the file contents bs: the five
+   statements of parseFileInput in the order gotrans reads off the source (Gen.C19Tables.parse_file_input_steps),
+   then parseAndHandleErrors, which dereferences the returned *FileInput on both paths
+   (Gen.C19Tables.handle_*_derefs_input):
+     EProg n  a program,  ESyn p  a positioned error,  EInternal  an unpositioned runtime error value,
+     ECrash   a panic leaves the entry point (no recover registered yet, or a nil *FileInput dereferenced by the
+              wrapper outside any recover),  EDeep  fatal stack overflow.
+   For ALL byte strings - in particular those whose FIRST token is a lexical error (newLexer lexes it eagerly,
+   before the statement loop) - and all letter predicates, within the same linear depth the entry point
+   returns a program or a positioned error. *)
+Theorem C19_entry_safe :
+  forall (isld : N -> bool) (bs : str) (depth : nat),
+    19 * length bs + 75 <= depth -> entry_ok (parse_data isld depth bs).
+Proof. exact parse_data_safe. Qed.
+Print Assumptions C19_entry_safe.
+
+(* Why the order matters, for ANY arrangement of parseFileInput's statements and either choice of what
+   parseAndHandleErrors returns on its two paths (dok / derr: it dereferences the *FileInput): if the executable
+   criterion safe_order holds ("the recover is registered and - when the error path dereferences - the FileInput is
+   allocated before newLexer and before the loop; the FileInput is allocated before the return when the ok path
+   dereferences") then NO input, letter predicate or depth makes a panic leave the entry point; and for each of
+   the 11 arrangements the translator accepts the criterion is exact: when it fails, the empty file or the
+   one-byte file "\t" (a lexical error in token 0) crashes the entry point. *)
+Definition C19_entry_order_statement : Prop :=
+  (forall steps dok derr, safe_order dok derr false false steps = true ->
+     forall isld f b, parse_data_with steps dok derr isld f b <> ECrash)
+  /\ (forall steps dok derr, In steps emit_shapes ->
+        (safe_order dok derr false false steps = true
+         <-> forall isld f b, parse_data_with steps dok derr isld f b <> ECrash))
+  /\ In entry_steps emit_shapes
+  /\ safe_order Gen.C19Tables.handle_ok_derefs_input Gen.C19Tables.handle_err_derefs_input false false entry_steps = true.
+
+Theorem C19_entry_order : C19_entry_order_statement.
+Proof.
+  exact (conj safe_order_no_crash (conj order_decides_crash (conj (proj2 emit_shapes_count) eq_refl))).
+Qed.
+Print Assumptions C19_entry_order.
+
 (* PARTIAL: what holds of the code as it is.
    (1) lexer totality within linear recursion depth (as above);
    (2) ParseData's lexer start-up (newLexer) within the same depth yields a token or a positioned error;
    (3) the lexer's postcondition on tokens;
    (4) the whole parser is safe within linear depth: a program or a positioned error;
    (5) the defect class is exactly "recursion depth": for every depth some input of length depth+1
-       exceeds it (so no depth limit short of the input length could be proved; (4) is linear). *)
+       exceeds it (so no depth limit short of the input length could be proved; (4) is linear);
+   (6) the public entry point (parseFileInput's statement order + parseAndHandleErrors) is safe within the
+       same depth: a program or a positioned error, never a panic that leaves it. *)
 Definition C19_partial_statement : Prop :=
   (forall isld bs depth, lex_fuel bs <= depth -> lex_ok (lex_all isld depth bs))
   /\ (forall isld bs depth, lex_fuel bs <= depth ->
         match new_lexer isld (buffer bs) depth with LTok _ _ | LErr _ => True | LInternal | LDeep => False end)
   /\ C19_lex_tokens_statement
   /\ (forall isld bs depth, 19 * length bs + 75 <= depth -> outcome_ok (parse isld depth bs))
-  /\ (forall isld depth, exists bs, length bs = S depth /\ parse isld depth bs = PDeep).
+  /\ (forall isld depth, exists bs, length bs = S depth /\ parse isld depth bs = PDeep)
+  /\ (forall isld bs depth, 19 * length bs + 75 <= depth -> entry_ok (parse_data isld depth bs)).
 
 Theorem C19_partial : C19_partial_statement.
-Proof. exact (conj lex_total (conj new_lexer_total (conj C19_lex_tokens (conj parse_safe deep_for_every_depth)))). Qed.
+Proof. exact (conj lex_total (conj new_lexer_total (conj C19_lex_tokens (conj parse_safe (conj deep_for_every_depth parse_data_safe))))). Qed.
 Print Assumptions C19_partial.
 
 (* Non-vacuity: the model lexes and parses real programs, reports positioned errors, and the pre-fix
@@ -117,3 +159,21 @@ Example C19_parse_safe_nonvacuous :
                        length (filter (fun t => (ttype t =? TInt)%Z) toks))
       | _ => (0, 0) end) = (2, 2).
 Proof. vm_compute. repeat split. Qed.
+
+(* Non-vacuity of C19_entry_safe / C19_entry_order: at the depth of the theorem the entry point model returns a
+   program, and positioned errors for lexical errors in the very first token (tab, $, unterminated string,
+   invalid UTF-8, also after blank lines); the arrangement with the allocation moved below newLexer is one of the
+   shapes, fails the criterion and crashes on "\t". *)
+Example C19_entry_nonvacuous :
+  let isld := fun _ : N => false in
+  let d b := 19 * length b + 75 in
+  parse_data isld (d (s "x = 1")) (s "x = 1") = EProg 1
+  /\ parse_data isld (d [9%N; 120%N]) [9%N; 120%N] = ESyn 0
+  /\ parse_data isld (d (s "$foo = 1")) (s "$foo = 1") = ESyn 0
+  /\ parse_data isld (d (s "'unterminated")) (s "'unterminated") = ESyn 0
+  /\ parse_data isld (d [255%N; 254%N]) [255%N; 254%N] = ESyn 0
+  /\ parse_data isld (d [10%N; 10%N; 32%N; 63%N]) [10%N; 10%N; 32%N; 63%N] = ESyn 3
+  /\ In [SDefer; SNewLexer; SAlloc; SLoop; SReturn] emit_shapes
+  /\ safe_order true true false false [SDefer; SNewLexer; SAlloc; SLoop; SReturn] = false
+  /\ parse_data_with [SDefer; SNewLexer; SAlloc; SLoop; SReturn] true true isld 20 [9%N] = ECrash.
+Proof. vm_compute. repeat split; tauto. Qed.
